@@ -24,7 +24,7 @@ BODIES = {
 
 def main():
     job = json.loads(sys.argv[1])
-    assert execnet.__file__.startswith("/repo/src"), execnet.__file__
+    assert execnet.__file__.startswith((os.environ.get("VERIF_REPO") or "/repo") + "/src"), execnet.__file__
     group = execnet.Group()
     import atexit
 
